@@ -251,3 +251,275 @@ def _stmt_of(func: ast.FunctionDef, node: ast.AST) -> ast.stmt:
             if any(n is node for n in ast.walk(st)):
                 return st
     raise LookupError
+
+
+# ---- added after the mutation sweep: every configuration is recorded, and only the general path may be skipped
+_inner_run_c02_sweep = run
+
+
+def _store_roles(upd):
+    """(container parameter, index parameter) of the function that writes a detected wave into the allocated
+    measurements: the parameters that are the root and the subscript of its `<container>[..].array[<index>] (+)= ...`
+    stores."""
+    cont, index = set(), set()
+    for st in ast.walk(upd.node):
+        tgt = st.target if isinstance(st, ast.AugAssign) else (st.targets[0] if isinstance(st, ast.Assign) else None)
+        if not isinstance(tgt, ast.Subscript) or not isinstance(tgt.slice, ast.Name) or tgt.slice.id not in upd.params:
+            continue
+        base = tgt.value
+        while isinstance(base, (ast.Subscript, ast.Attribute)):
+            base = base.value
+        if isinstance(base, ast.Name) and base.id in upd.params:
+            cont.add(base.id)
+            index.add(tgt.slice.id)
+    if len(cont) != 1 or len(index) != 1:
+        from ..model import AnalysisError
+
+        raise AnalysisError(f"{upd.qualname}: the store `<measurements>[i].array[<index>] = ...` was not recognised")
+    return cont.pop(), index.pop()
+
+
+def _root_name(e):
+    while isinstance(e, (ast.Subscript, ast.Attribute)):
+        e = e.value
+    return e.id if isinstance(e, ast.Name) else None
+
+
+def _recorded(ctx, repo, f) -> None:
+    from ..model import bind_args
+    from ..rules.pathfacts import edge_facts, none_polarity
+
+    upd = repo.function("abtem.multislice", "_update_measurements")
+    cont_p, index_p = _store_roles(upd)
+    df = DataFlow(f.node)
+    cfg = df.cfg
+    vnodes, unodes = [], []  # (node idx, stmt, call)
+    for n in cfg.nodes:
+        if n.ast is None or n.kind != "stmt":
+            continue
+        for c in walk_no_nested(n.ast):
+            if not isinstance(c, ast.Call):
+                continue
+            if call_name(c) == "_validate_potential_ensemble_indices":
+                ctx.require(isinstance(n.ast, ast.Assign) and n.ast.value is c and isinstance(n.ast.targets[0], ast.Name),
+                            f"{f.qualname}: the measurement index is not bound to a variable")
+                vnodes.append((n.idx, n.ast, c))
+            elif call_name(c) == upd.name:
+                unodes.append((n.idx, n.ast, c))
+    ctx.require(vnodes and unodes, f"{f.qualname}: measurement index / update calls not found")
+    containers = set()
+    for _, _, c in unodes:
+        b = bind_args(c, upd)
+        ctx.require(cont_p in b and index_p in b, f"{f.qualname}: `{norm_text(c)[:60]}` does not pass container and index")
+        containers.add(_root_name(b[cont_p]))
+    ctx.require(len(containers) == 1 and None not in containers,
+                f"{f.qualname}: the measurement updates do not write one container variable")
+    cont = containers.pop()
+    vset = {i for i, _, _ in vnodes}
+    for k, (vi, vst, vc) in enumerate(vnodes):
+        consumers = set()
+        for ui, ust, uc in unodes:
+            arg = bind_args(uc, upd)[index_p]
+            sl = df.backward_slice(ui, arg)
+            if vi in sl.def_nodes:
+                consumers.add(ui)
+        loops = cfg.nodes[vi].loops
+        if not loops:
+            ctx.info("R-RECORDED", f"{f.qualname}:measurement index #{k + 1}", f.loc(vst),
+                     "computed outside every loop: left to R-PERCONFIG")
+            continue
+        stops = {cfg.exit, loops[-1]} | (vset - {vi}) | set(loops)
+        # is there a path from the index computation to the end of this (configuration, exit plane) step that passes
+        # no update consuming the index, along edges on which the container may be allocated?
+        seen, stack, bad = set(), [vi], None
+        while stack and bad is None:
+            n = stack.pop()
+            for s in cfg.nodes[n].succ:
+                lab = cfg.elabel.get((n, s))
+                if lab in ("T", "F") and any(none_polarity(a, t, cont) is True for a, t in edge_facts(cfg, n, lab, df)):
+                    continue  # nothing is allocated on this edge: there is nothing to record
+                if s in consumers or s in seen or s == cfg.rexit:
+                    continue
+                if s in stops:
+                    bad = s
+                    break
+                seen.add(s)
+                stack.append(s)
+        ctx.check(bad is None, "R-RECORDED", f"{f.qualname}:measurement index #{k + 1}", f.loc(vst),
+                  f"every path on which `{cont}` is allocated hands the index to {upd.name} before the step ends "
+                  f"({len(consumers)} consuming update(s))",
+                  f"the slot computed by `{norm_text(vc)[:70]}` can reach the end of the step without any "
+                  f"{upd.name}(..., <that index>) although `{cont}` is allocated: the slot of this (configuration, exit "
+                  "plane) keeps the zeros it was allocated with, whereas the single-configuration run (which detects the "
+                  "final wave directly) returns the wave", key_detail="unrecorded")
+
+
+def _mentions_ensemble_shape(repo, f, df, at: int, expr, depth: int = 0) -> bool:
+    """Does `expr` (evaluated at CFG node `at` of `f`) derive from an `.ensemble_shape` read — directly, through
+    locals, or through a package function that reads it from its argument?"""
+    sl = df.backward_slice(at, expr)
+    exprs = [expr] + [df.cfg.nodes[n].ast for n in sl.def_nodes if df.cfg.nodes[n].ast is not None]
+    for e in exprs:
+        for m in ast.walk(e):
+            if isinstance(m, ast.Attribute) and m.attr == "ensemble_shape":
+                return True
+            if isinstance(m, ast.Call) and depth < 2:
+                g = repo.resolve_name(f.module, call_name(m) or "")
+                if g is not None and hasattr(g, "positional_params") and hasattr(g, "node") and \
+                        isinstance(g.node, ast.FunctionDef):
+                    for r in walk_no_nested(g.node):
+                        if isinstance(r, ast.Return) and r.value is not None:
+                            dg = DataFlow(g.node)
+                            if _mentions_ensemble_shape(repo, g, dg, dg.cfg.node_of(r).idx, r.value, depth + 1):
+                                return True
+    return False
+
+
+def _count_fact(repo, f, df, at: int, atom, truth):
+    """Reads one path fact as a statement about the number of configurations: +1 `exactly one`, -1 a comparison of a
+    configuration count that does not establish `exactly one`, 0 not about the configuration count."""
+    if not (isinstance(atom, ast.Compare) and len(atom.ops) == 1):
+        return 0
+    sides = [atom.left, atom.comparators[0]]
+    for a, b in (sides, sides[::-1]):
+        count = False
+        if isinstance(a, ast.Attribute) and a.attr in ("num_configurations", "num_configs", "num_frozen_phonons"):
+            count = True
+        elif isinstance(a, ast.Call) and (call_name(a) or "").split(".")[-1] in ("sum", "prod") and len(a.args) == 1 \
+                and _mentions_ensemble_shape(repo, f, df, at, a.args[0]):
+            count = True
+        if not count:
+            continue
+        one = isinstance(b, ast.Constant) and b.value == 1 and not isinstance(b.value, bool)
+        if one and ((isinstance(atom.ops[0], ast.Eq) and truth) or (isinstance(atom.ops[0], ast.NotEq) and not truth)):
+            return 1
+        return -1
+    return 0
+
+
+def _lastonly(ctx, repo, f, cloop) -> None:
+    from ..model import AnalysisError
+    from ..rules.pathfacts import necessary_facts, none_polarity
+
+    df = DataFlow(f.node)
+    cfg = df.cfg
+    header = cfg.node_of(cloop).idx
+    body = cfg.loop_body_nodes(header)
+    after, stack = set(), [s for s in cfg.nodes[header].succ if s not in body]
+    while stack:
+        n = stack.pop()
+        if n in after or n in body or n == header:
+            continue
+        after.add(n)
+        stack.extend(cfg.nodes[n].succ)
+    pot = f.positional_params[1]
+
+    def single(at: int, facts) -> tuple[int, str]:
+        """+1 single configuration established, -1 refuted/unguarded, and a text."""
+        verdicts = [(_count_fact(repo, f, df, at, a, t), a, t) for a, t in facts]
+        if any(v == 1 for v, _, _ in verdicts):
+            a = next(a for v, a, _ in verdicts if v == 1)
+            return 1, f"`{norm_text(a)}`"
+        wrong = [(a, t) for v, a, t in verdicts if v == -1]
+        if wrong:
+            a, t = wrong[0]
+            return -1, f"the guard `{norm_text(a)}` ({'true' if t else 'false'} there) does not say that there is exactly " \
+                       "one configuration"
+        about_pot = [a for a, _ in facts if any(isinstance(m, ast.Name) and m.id == pot for m in ast.walk(a))
+                     or df.backward_slice(at, a).depends_on(pot)]
+        if not about_pot:
+            return -1, "no test on the potential guards it"
+        raise AnalysisError(f"{f.qualname}: cannot read the guard {', '.join(norm_text(a)[:50] for a in about_pot)} as a "
+                            "statement about the number of configurations")
+
+    n_uses = 0
+    for n in sorted(after):
+        node = cfg.nodes[n]
+        if node.ast is None or node.kind not in ("stmt", "test", "loop", "with"):
+            continue
+        for var in sorted(df.node_uses.get(n, set())):
+            rd = [d for d in df.reaching(n, var) if (d.node in body or d.node == header) and d.kind in (
+                "assign", "aug", "for", "walrus")]
+            if not rd:
+                continue
+            n_uses += 1
+            facts = necessary_facts(cfg, n, df)
+            construct = f"{f.qualname}:value of the last configuration read after the loop"
+            # the use may be guarded by `<flag> is None`, the flag being set to None where the shortcut is chosen
+            flags = []
+            for a, t in facts:
+                if isinstance(a, ast.Compare) and isinstance(a.left, ast.Name) and none_polarity(a, t, a.left.id) is True:
+                    flags.append(a.left.id)
+            sites = []  # (node, facts) where the decision for the shortcut is taken
+            for fl in flags:
+                for d in df.reaching(n, fl):
+                    if d.kind != "assign" or not d.strong or d.value is None:
+                        raise AnalysisError(f"{f.qualname}: `{fl}` is defined by an unmodelled construct")
+                    if isinstance(d.value, ast.Constant) and d.value.value is None:
+                        sites.append((d.node, necessary_facts(cfg, d.node, df)))
+                    elif not isinstance(d.value, (ast.Call, ast.List, ast.ListComp, ast.Tuple, ast.Dict)):
+                        raise AnalysisError(f"{f.qualname}: cannot tell whether `{norm_text(d.value)[:40]}` is None")
+            if not sites:
+                sites = [(n, facts)]
+            res = [single(at, fs) for at, fs in sites]
+            bad = [t for v, t in res if v != 1]
+            ctx.check(not bad, "R-LASTONLY", construct, f.loc(node.ast),
+                      f"`{var}` (left by the last configuration) is read after the configuration loop only where "
+                      f"{res[0][1]} holds: there is exactly one configuration",
+                      f"`{var}` is assigned per configuration inside the loop and read after it, i.e. it holds the LAST "
+                      f"configuration only, but {bad[0] if bad else ''}: with N > 1 configurations the result contains one "
+                      "configuration instead of N", key_detail="lastonly")
+    ctx.require(n_uses >= 1, f"{f.qualname}: no read of the final wave after the configuration loop (the shortcut for "
+                             "a single configuration was not found)")
+
+
+def run(ctx) -> None:  # noqa: F811
+    repo = ctx.repo
+    ctx.rule("R-RECORDED", "in multislice_and_detect every slot index computed by _validate_potential_ensemble_indices "
+             "is handed to an _update_measurements call on every path to the end of that (configuration, exit plane) "
+             "step on which the measurement container is allocated (edges that establish `<container> is None` are "
+             "excluded).  An ensemble always allocates, a single configuration detects the final wave directly: a step "
+             "that computes its slot and does not write it leaves zeros in the ensemble result only, so configuration k "
+             "differs from the independent run of configuration k")
+    ctx.rule("R-LASTONLY", "a variable assigned inside the configuration loop and read after it holds the last "
+             "configuration only.  Such a read (the direct detection of the final wave) must lie on paths where a test "
+             "`<count> == 1` holds, <count> being num_configurations or the sum/product of a shape derived from "
+             "potential.ensemble_shape — either at the read itself or where the flag that the read is guarded with "
+             "(`<flag> is None`) is set to None")
+    ctx.rule("R-SEEDPART", "(CrystalPotential) the same two clauses as for FrozenPhonons: blocks are rebuilt with "
+             "seeds=<block seeds> and num_frozen_phonons=len(<block seeds>), and _partition_args cuts self.seeds with "
+             "the loop's own range in the lazy and in the eager arm")
+    mad = repo.function("abtem.multislice", "multislice_and_detect")
+    _recorded(ctx, repo, mad)
+    cloops = [l for l in walk_no_nested(mad.node) if isinstance(l, ast.For) and isinstance(l.iter, ast.Call)
+              and call_name(l.iter) == "_generate_potential_configurations"]
+    ctx.require(len(cloops) == 1, f"{mad.qualname}: loop over _generate_potential_configurations not found")
+    _lastonly(ctx, repo, mad, cloops[0])
+    _crystal_seedpart(ctx, repo)
+    _inner_run_c02_sweep(ctx)
+
+
+def _crystal_seedpart(ctx, repo) -> None:
+    IAM = "abtem.potentials.iam"
+    fpa = repo.method(IAM, "CrystalPotential", "_from_partitioned_args_func")
+    ctors = [c for c in walk_no_nested(fpa.node) if isinstance(c, ast.Call) and dotted(c.func) in ("cls", "CrystalPotential")]
+    ctx.require(len(ctors) == 1, f"{fpa.qualname}: constructor call not found")
+    kws = {k.arg: k.value for k in ctors[0].keywords if k.arg}
+    seedv, numv = kws.get("seeds"), kws.get("num_frozen_phonons")
+    dfp = DataFlow(fpa.node)
+    at = dfp.cfg.node_of(_stmt_of(fpa.node, ctors[0])).idx
+    ok = isinstance(seedv, ast.Name) and numv is not None and "args" in dfp.backward_slice(at, seedv).params
+    if ok:
+        # num_frozen_phonons is len(<the block seeds>) wherever the seeds are not None
+        vals = [numv]
+        if isinstance(numv, ast.Name):
+            vals = [d.value for d in dfp.reaching(at, numv.id)]
+        lens = [v for v in vals if isinstance(v, ast.Call) and call_name(v) == "len"]
+        others = [v for v in vals if v not in lens]
+        ok = bool(lens) and all(len(v.args) == 1 and dotted(v.args[0]) == seedv.id for v in lens) and all(
+            isinstance(v, ast.Constant) and v.value is None for v in others)
+    ctx.check(ok, "R-SEEDPART", f"{fpa.qualname}:rebuild", fpa.loc(ctors[0]),
+              "block rebuilt with seeds=<block seeds>, num_frozen_phonons=len(<block seeds>)",
+              f"block rebuilt by {norm_text(ctors[0])[:90]}: seeds/num_frozen_phonons do not come from the block's own "
+              "seeds", key_detail="rebuild")
+    sameslice.check(ctx, repo.method(IAM, "CrystalPotential", "_partition_args"), rule="R-SEEDPART")
